@@ -275,10 +275,24 @@ func runC08(c *Ctx) {
 			return out
 		}
 		var pongs []*ssa.Call
+		var pingFrame ssa.Value = fn.Params[1] // the received frame, as the function that builds the reply names it
 		for _, b := range region(opPing) {
 			for _, in := range b.Instrs {
 				if isCallToFn(in, w.prepareWrite) {
 					pongs = append(pongs, in.(*ssa.Call))
+				}
+				// the Ping case delegates to a helper of its own that receives the frame
+				if call, ok := in.(*ssa.Call); ok {
+					if h := call.Call.StaticCallee(); isHelperOf(fn, h) && h != w.prepareWrite && len(callsToFn(h, w.prepareWrite)) > 0 {
+						for i, a := range call.Call.Args {
+							if strip(a) == ssa.Value(fn.Params[1]) && i < len(h.Params) {
+								pingFrame = h.Params[i]
+							}
+						}
+						for _, pc := range callsToFn(h, w.prepareWrite) {
+							pongs = append(pongs, pc.(*ssa.Call))
+						}
+					}
 				}
 			}
 		}
@@ -290,7 +304,7 @@ func runC08(c *Ctx) {
 			isPong := callChainHas(arg, w.setPong) != nil
 			echo := false
 			if sp != nil && len(sp.Call.Args) == 2 {
-				if pc, ok := strip(sp.Call.Args[1]).(*ssa.Call); ok && isCallToFn(pc, w.payloadM) && strip(pc.Call.Args[0]) == ssa.Value(fn.Params[1]) {
+				if pc, ok := strip(sp.Call.Args[1]).(*ssa.Call); ok && isCallToFn(pc, w.payloadM) && strip(pc.Call.Args[0]) == pingFrame {
 					echo = true
 				}
 			}
